@@ -10,7 +10,12 @@
    ENABLING conditions are only those the code enforces by its control flow or
    by the data structures it uses (what can be popped must have been pushed;
    next() skips fibers that are still saving; a waker of a directly-published
-   waiter only turns WAITING into READY; deferred actions run after the swap).
+   waiter only turns WAITING into READY; deferred actions run after the swap;
+   a manager's maintenance fiber only runs thread_func's loop: it never yields
+   as READY, never publishes itself through a deferred slot and never becomes
+   a done_fiber -- without these three guards the machine lets a maintenance
+   fiber migrate while its manager can still switch to it, see the refutation
+   recorded in Properties_C01.v).
    The SAFETY facts (a fiber runs on one thread; it is switched to only when
    saved; it is reclaimed only when finished, saved and unreferenced; it is
    queued at most once per wake-up) are NOT guards: they are theorems about
@@ -108,7 +113,7 @@ Definition kstep (s : ks) (l : label) : option ks :=
                      else set_avail (set_fs s c FSaving) c (Some AP1))
           else None
       | FWait =>
-          if Nat.eqb f c && fst_eqb (fs s c) FRun && negb (inmaint s t)
+          if Nat.eqb f c && fst_eqb (fs s c) FRun && negb (inmaint s t) && negb (oeqb (maintf s t) c)
           then Some (set_pubpend (set_fs s c FWait) t (Some c))          (* published by a deferred action *)
           else if inmaint s t && oeqb (oldf s t) f && fst_eqb (fs s f) FSaving
           then Some (set_oldf (set_fs s f FWait) t None)                 (* the flip done by the successor *)
@@ -119,7 +124,7 @@ Definition kstep (s : ks) (l : label) : option ks :=
       | FReady =>
           if Nat.eqb f c
           then (* switch_to: the yielding fiber will be re-queued by its successor *)
-               if fst_eqb (fs s c) FRun && negb (inmaint s t)
+               if fst_eqb (fs s c) FRun && negb (inmaint s t) && negb (oeqb (maintf s t) c)
                then Some (set_tosched (set_fs s c FReady) t (Some c)) else None
           else if oeqb (born s f) t && fst_eqb (fs s f) FReady then Some s   (* fiber_create_no_sched's own initialisation *)
           else (* a waker *)
@@ -137,7 +142,7 @@ Definition kstep (s : ks) (l : label) : option ks :=
       | FNone => None
       end
   | LSlotDone t f =>
-      if Nat.eqb f (cur s t) && fst_eqb (fs s f) FDone then Some (set_donef s t (Some f)) else None
+      if Nat.eqb f (cur s t) && fst_eqb (fs s f) FDone && negb (oeqb (maintf s t) f) then Some (set_donef s t (Some f)) else None
   | LSched t f =>
       if inmaint s t && oeqb (tosched s t) f
       then Some (set_q (set_tosched s t None) f true)
